@@ -1292,19 +1292,24 @@ def _reply_shape(run):
                           message=f"{hname} does not return {{ERROR_CODE_KEY: <int>}}")
     run.floor("R2", "command returns", nret, 40)
     gate = P.func("comm.protocol.HSM2Protocol.__internal_handle_request")
+    gg_ = A.cfg(gate, P.cls("comm.protocol.HSM2Protocol"))
+    opcalls = [x for n in A.own_nodes(gate) if isinstance(n, ast.Call) and isinstance(n.func, ast.Subscript) and norm(n.func.value) == "self._mappings" for x in gg_.nodes_of(n)]
+    run.require(len(opcalls) >= 1, "gate: the operation call self._mappings[command](request) was not identified")
     for r in [n for n in A.own_nodes(gate) if isinstance(n, ast.Return)]:
         v = r.value
         ok = (isinstance(v, ast.Call) and call_name(v) in ("format_error", "_invalid_request", "_wrong_version",
                                                             "_command_unknown")) \
             or (isinstance(v, ast.Dict) and len(v.keys) == 1 and norm(v.keys[0]) == "self.ERROR_CODE_KEY") \
-            or (isinstance(v, ast.Name) and v.id == "output")
+            or all(any(gg_.dominates(o, rn) for o in opcalls) for rn in gg_.nodes_of(r))       # the operation's reply: assembled as rule A.R8 says
         run.check("R2", ok, "gate return is an errorcode dict", key=f"gate|return {norm(v)[:40]}|shape",
                   where=gate.loc(r), message=f"the gate returns `{norm(v)[:60]}`")
-    outs = [n for n in A.own_nodes(gate) if isinstance(n, ast.Assign)
-            and any(norm(t) == "output[self.ERROR_CODE_KEY]" for t in n.targets)]
-    run.check("R2", len(outs) == 1 and norm(outs[0].value) == "result", "gate adds errorcode to the operation's dict",
-              key="gate|output-errorcode", where=gate.loc(),
-              message="the gate no longer stores the result code under ERROR_CODE_KEY of the output")
+    # the operation's (code, data) pair becomes {.., errorcode: code}: reply assembly (rule R8 of C13) under the prefix A.
+    from . import c13
+    run.rid_prefix = "A."
+    try:
+        c13.reply_assembly(run, "R8")
+    finally:
+        run.rid_prefix = ""
 
 
 def _fatal_escape(run, handler, justified):
